@@ -202,6 +202,14 @@ def corpus():
                    ("tuple", ("cls", 0), ("cls", 3)), ("ann", ("list", ("tuple", ("cls", 1), ("cls", 2))), ("listSize", 1, 2))):
             out.append(gram.Spec(base + [C("P", False, 0, [("p", ft)])], 0, [1, 2, 3, 4], expansion))
             out.append(gram.Spec(base + [C("S", False, None, [("p", ft), ("q", ("cls", 0))])], 4, [1, 2, 3, 4], expansion))
+    # a Union whose alternatives are a WRAPPED grammar type (a list of productions, a list of the recursive symbol, a bounded list, a
+    # tuple) and a plain value: the wrapped alternative needs the levels of what it wraps, the plain one none
+    for expansion in (False, True):
+        for wrapped in (("list", ("cls", 1)), ("list", ("cls", 0)), ("ann", ("list", ("cls", 0)), ("listSize", 1, 2)), ("tuple", ("cls", 0), "int")):
+            out.append(gram.Spec([C("A0", True, None), C("Lit", False, 0, [("k", ("ann", "int", ("intRange", 0, 3)))]),
+                                  C("Add", False, 0, [("l", ("cls", 0)), ("r", ("cls", 0))]),
+                                  C("Blk", False, 0, [("body", ("union", wrapped, "int"))])], 0, [1, 2, 3], expansion))
+            out.append(gram.Spec([C("A0", True, None), C("Lit", False, 0, []), C("Blk", False, 0, [("body", ("union", "int", wrapped))])], 0, [1, 2], expansion))
     # production weights, including weight 0 on the strictly shallowest production of a non-terminal: the depth-limited deciders do
     # not read weights, the minimum depth the grammar reports is the one creation can meet
     for expansion in (False, True):
